@@ -1,7 +1,7 @@
 import hashlib
 from typing import List
 
-from asn1crypto.core import OctetString
+from asn1crypto.core import OctetString, Void
 from cryptography import x509
 from cryptography.exceptions import InvalidSignature
 from cryptography.hazmat.primitives.serialization import Encoding, PublicFormat
@@ -182,12 +182,13 @@ def verify_android_key(
     # The AuthorizationList.allApplications field is not present on either authorization
     # list (softwareEnforced nor teeEnforced), since PublicKeyCredential MUST be scoped
     # to the RP ID.
-    if software_enforced["allApplications"].native is not None:
+    # An absent OPTIONAL field is a Void; a present NULL has `.native` None as well, so test presence
+    if not isinstance(software_enforced["allApplications"], Void):
         raise InvalidRegistrationResponse(
             "allApplications field was present in softwareEnforced (Android Key)"
         )
 
-    if tee_enforced["allApplications"].native is not None:
+    if not isinstance(tee_enforced["allApplications"], Void):
         raise InvalidRegistrationResponse(
             "allApplications field was present in teeEnforced (Android Key)"
         )
